@@ -72,6 +72,7 @@ def check_primitives(rep, g, tier, seed):
     HARNESS.prefetch(g, ["inverse", "compose", "act", "exp", "log"])
 
     first = True
+    rep.progress("%s obligations start" % g)
     for c in _paths(rep, g, "inverse", [("x", "G")], seed, "inverse"):
         if first:
             c.lift_is_sound("spec", "x")
@@ -84,6 +85,13 @@ def check_primitives(rep, g, tier, seed):
         taylor.with_taylor(c, TAU, lambda c=c: (c.deriv_vec("Jm", c.vec("out"), c.out("Jm"), "x"),
                                                  c.deriv_vec("Jp", c.vec("out"), c.out("Jp"), "p")))
     for c in _paths(rep, g, "exp", [("t", "T")], seed, "exp"):
+        rep.progress("%s exp[%s] obligations" % (g, c.path.script))
         taylor.with_taylor(c, TAU, lambda c=c: c.deriv_group("J", c.vec("out"), c.out("J"), "t"))
     for c in _paths(rep, g, "log", [("x", "G")], seed, "log"):
-        taylor.with_taylor(c, TAU, lambda c=c: c.deriv_vec("J", c.vec("out"), c.out("J"), "x"))
+        rep.progress("%s log[%s] obligations" % (g, c.path.script))
+        M = c.inverse_stub_of("J")
+        if M is not None:
+            rep.trust("A-EIGEN-INV: for N>4 Eigen's M.inverse() returns X with M*X = I (det M != 0); used for the "
+                      "numeric-inverse fallback rjacinv()/ljacinv() of groups without closed forms")
+        taylor.with_taylor(c, TAU, lambda c=c, M=M: c.deriv_vec("J", c.vec("out"), c.out("J"), "x", J_inverse_of=M))
+    rep.progress("%s done" % g)
